@@ -312,7 +312,7 @@ class LenEv:
             n = self.ev(e.args[1], env)
             if isinstance(n, dict):
                 return Bytes(n)
-        if d == "sum" and 1 <= len(e.args) <= 2 and isinstance(e.args[0], (ast.GeneratorExp, ast.ListComp)) and len(e.args[0].generators) == 1 and not e.args[0].generators[0].ifs and isinstance(e.args[0].generators[0].target, ast.Name):
+        if d == "sum" and 1 <= len(e.args) <= 2 and isinstance(e.args[0], (ast.GeneratorExp, ast.ListComp)) and len(e.args[0].generators) == 1 and isinstance(e.args[0].generators[0].target, ast.Name):
             g = e.args[0].generators[0]
             coll = self.ev(g.iter, env)
             init = self.ev(e.args[1], env) if len(e.args) == 2 else {}
@@ -324,6 +324,9 @@ class LenEv:
                 env2["__rename__"] = ren
                 inner = self.ev(e.args[0].elt, env2)
                 if isinstance(inner, dict):
+                    # `sum(f(x) for x in C if c(x))` counts f(x) for the elements that satisfy every filter: f(x) * ind(c(x))
+                    for cnd in g.ifs:
+                        inner = l_mul({("ind", self.cond_text(cnd, env2)): 1}, inner)
                     return l_add(init, self.sum_over(coll.text, inner))
             raise LenUnsupported("sum() over something that is not a per-element linear form")
         if d == "reduce" and len(e.args) == 3 and isinstance(e.args[0], ast.Lambda):
